@@ -321,6 +321,12 @@ func ite(c, a, b *Ex) *Ex {
 	if exEqual(a, b) {
 		return a
 	}
+	if a.Op == "blit" && b.Op == "blit" { // (if c then true else false) is c
+		if a.BVal {
+			return c
+		}
+		return not(c)
+	}
 	if flipCond(c) {
 		c, a, b = not(c), b, a
 	}
